@@ -124,8 +124,18 @@ def run(case: dict, ctx) -> dict:
 
                 dkey = bytes(rng.randrange(256) for _ in range(32))
                 blob, p = wvx.phrase_pair(rng, "pw", dkey, cipher="AES-256", mac="HMAC-SHA-1", kdf="PBKDF2-HMAC-SHA-1", rounds=3, salt=bytes(rng.randrange(256) for _ in range(16)))
+                clear = ['displayName = "sealed"']
+                clear_disks = []
+                sealed_disk_devs = [k_ for k_, d_ in devices.items() if d_["disk"] and d_["file"]]
+                if sealed_disk_devs and rng.random() < 0.5:
+                    # the clear-text part still carries an assignment for a device that the sealed dictionary assigns too (left
+                    # over from before the VM was encrypted): once unlocked, the sealed assignment is the later one
+                    cls_, b_, u_ = rng.choice(sealed_disk_devs)
+                    clear += [f'{cls_}{b_}:{u_}.fileName = "left-over-clear-text.vmdk"', f'{cls_}{b_}:{u_}.present = "TRUE"']
+                    clear_disks = ["left-over-clear-text.vmdk"]
+                    cnt["encrypted_vmx_with_overlapping_clear_text_keys"] = cnt.get("encrypted_vmx_with_overlapping_clear_text_keys", 0) + 1
                 enc = wvx.vmx_text(wvx.keysafe_text([wvx.pair_text(blob, p)]), wvx.seal(dkey, text.encode(), "HMAC-SHA-1", bytes(rng.randrange(256) for _ in range(16))),
-                                   ['displayName = "sealed"'])
+                                   clear)
                 oe = call(lambda: VMX.parse(enc))
                 if oe.ok:
                     ve = oe.value
@@ -133,7 +143,7 @@ def run(case: dict, ctx) -> dict:
                     un = call(ve.unlock_with_phrase, "pw")
                     after = call(ve.disks)
                     cnt["encrypted_vmx_disk_lists"] = cnt.get("encrypted_vmx_disk_lists", 0) + 1
-                    if before is not None and before.ok and before.value:
+                    if before is not None and before.ok and before.value != clear_disks:
                         res["viol"].append({"what": "a locked VMX reported disks that only exist inside the encrypted part", "mech": MECH, "detail": {"got": before.value}})
                         break
                     if not un.ok or not after.ok or after.value != disks:
